@@ -96,6 +96,10 @@ func routesJSON(matchTimeoutMs int, withTLS bool) string {
 		map[string]any{"match": []any{map[string]any{"verif_m1": map[string]any{"id": "U", "gate": int('U'), "need": 1 << 20, "at": 0, "eq": 0}}},
 			"handle": []any{map[string]any{"handler": "verif_sink", "name": "sinkU"}}},
 	}
+	// S: the route's last handler is a subroute that nothing inside matches: falls through the subroute, then through the list
+	rs = append(rs, map[string]any{"match": []any{m("S", 'S')}, "handle": []any{map[string]any{"handler": "subroute", "routes": []any{
+		map[string]any{"match": []any{map[string]any{"verif_m2": map[string]any{"id": "SZ", "need": 2, "at": 1, "eq": int('Z')}}},
+			"handle": []any{map[string]any{"handler": "verif_sink", "name": "sinkS"}}}}}}})
 	if withTLS {
 		rs = append(rs, map[string]any{"match": []any{map[string]any{"tls": map[string]any{}}}, "handle": []any{map[string]any{"handler": "tls"}}})
 	}
@@ -172,7 +176,7 @@ func oneRun(c *fw.Ctx, cert *tlsutil.Cert, index, nConns int) {
 	stopAfter := 1 + r.Intn(nConns/2+1)
 
 	// plan connections
-	classes := []byte("ABBBCCPPEUFTL")
+	classes := []byte("ABBBCCPPEUFTLSS")
 	plans := make([]*connPlan, nConns)
 	for k := range plans {
 		cl := classes[r.Intn(len(classes))]
@@ -215,6 +219,9 @@ func oneRun(c *fw.Ctx, cert *tlsutil.Cert, index, nConns int) {
 		case 'T':
 			p.Expect = s
 		case 'N', 'M':
+			p.Wire, p.Expect = s, s
+		case 'S':
+			s[0], s[1] = 'S', 'q'
 			p.Wire, p.Expect = s, s
 		}
 		p.Segs = drive.Segmentation(drive.SegClasses[r.Intn(len(drive.SegClasses))], len(p.Wire), rand.New(rand.NewSource(r.Int63())))
